@@ -1,7 +1,7 @@
 SPECIFICATION Spec
 CONSTANTS
   MaxDepth = 2
-  MaxTens = 5
+  MaxTens = 6
   Judge = TRUE
   Record = FALSE
   Dev = "none"
